@@ -14,7 +14,7 @@ features = f.group(1).strip() if f else ""
 pkg = re.search(r"-p (cedar[\w-]+)", meta.get("demo_cmd", ""))
 pkg = pkg.group(1) if pkg else "cedar-policy"
 demo_dst = f"{wt}/{pkg}/tests/{test}.rs"
-env = dict(os.environ, CARGO_NET_OFFLINE="true")
+env = dict(os.environ, CARGO_NET_OFFLINE="true", CARGO_PROFILE_DEV_DEBUG="0", CARGO_PROFILE_TEST_DEBUG="0", CARGO_INCREMENTAL="0")
 def run(cmd, **kw):
     return subprocess.run(cmd, cwd=wt, env=env, stdout=subprocess.PIPE, stderr=subprocess.STDOUT, text=True, **kw)
 run(["git", "checkout", "--", "."])
